@@ -800,6 +800,11 @@ def WF (p : Program) : Prop :=
 /-- the program has no projection node -/
 def NoProj (p : Program) : Prop := ∀ (k : Key) (d : NodeDef), p[k]? = some d → d.kind ≠ .projection
 
+/-- every projection reads firewalls only (no projection over a projection) -/
+def NoProjOverProj (p : Program) : Prop :=
+  ∀ (k : Key) (d : NodeDef), p[k]? = some d → d.kind = .projection →
+    ProgAll (fun x => kindOf p x = some .firewall) d.prog
+
 -- ------------------------------------------------------------------ bridge from the full model's programs
 
 def ofKind : Qbice.Engine.Kind → Kind
